@@ -9,6 +9,38 @@ use rbx_types::*;
 use rbx_xml::verif::{find_canonical_property_descriptor, find_serialized_property_descriptor};
 use std::collections::{BTreeMap, BTreeSet, HashMap};
 
+/// is the property (spelling `k` of class `class`, value `v`) inside C06's quantifier?  Returns the canonical name it denotes.
+/// Serializable (Serializes or SerializesAs), non-migrating, reached through its canonical or an alias name, carrying a value
+/// of the declared type which is also the serialized type; Refs point at written instances.
+pub fn prop_scope(class: &str, k: &str, v: &Variant, labels: &BTreeSet<u64>) -> Option<String> {
+    let (c, s) = match (find_canonical_property_descriptor(class, k, db()), find_serialized_property_descriptor(class, k, db())) {
+        (Some(c), Some(s)) => (c, s),
+        _ => return None,
+    };
+    if !matches!(&s.kind, PropertyKind::Canonical { serialization: PropertySerialization::Serializes }) && s.name == c.name {
+        return None;
+    }
+    if is_migrate(c) || is_migrate(s) || k == "Name" {
+        return None;
+    }
+    if v.ty() != data_type_vt(&c.data_type) || v.ty() != data_type_vt(&s.data_type) {
+        return None;
+    }
+    match v {
+        Variant::Ref(r) if r.is_some() => {
+            if !(1..=64u64).any(|l| crate::val::synthetic_ref(l) == *r && labels.contains(&l)) {
+                return None;
+            }
+        }
+        Variant::Content(c) if matches!(c.value(), ContentType::Object(_)) => return None,
+        Variant::Region3(_) | Variant::Region3int16(_) | Variant::EnumItem(_) | Variant::Vector2int16(_) => return None,
+        Variant::ColorSequence(s) if s.keypoints.len() < 2 => return None,
+        Variant::NumberSequence(s) if s.keypoints.len() < 2 => return None,
+        _ => {}
+    }
+    Some(c.name.to_string())
+}
+
 fn in_scope(f: &Forest) -> bool {
     let labels: BTreeSet<u64> = f.nodes.iter().map(|n| n.label).collect();
     let tops: Vec<u64> = f.nodes.iter().filter(|n| n.parent == 0).map(|n| n.label).collect();
@@ -32,33 +64,13 @@ fn in_scope(f: &Forest) -> bool {
         }
         let mut canon_names = BTreeSet::new();
         for (k, v) in &n.props {
-            let (c, s) = match (find_canonical_property_descriptor(&n.class, k, db()), find_serialized_property_descriptor(&n.class, k, db())) {
-                (Some(c), Some(s)) => (c, s),
-                _ => return false,
-            };
-            if !matches!(&s.kind, PropertyKind::Canonical { serialization: PropertySerialization::Serializes }) && s.name == c.name {
-                return false;
-            }
-            if is_migrate(c) || is_migrate(s) || k == "Name" {
-                return false;
-            }
-            if v.ty() != data_type_vt(&c.data_type) || v.ty() != data_type_vt(&s.data_type) {
-                return false;
-            }
-            if !canon_names.insert(c.name.to_string()) {
-                return false;
-            }
-            match v {
-                Variant::Ref(r) if r.is_some() => {
-                    if !(1..=64u64).any(|l| crate::val::synthetic_ref(l) == *r && labels.contains(&l)) {
+            match prop_scope(&n.class, k, v, &labels) {
+                Some(cn) => {
+                    if !canon_names.insert(cn) {
                         return false;
                     }
                 }
-                Variant::Content(c) if matches!(c.value(), ContentType::Object(_)) => return false,
-                Variant::Region3(_) | Variant::Region3int16(_) | Variant::EnumItem(_) | Variant::Vector2int16(_) => return false,
-                Variant::ColorSequence(s) if s.keypoints.len() < 2 => return false,
-                Variant::NumberSequence(s) if s.keypoints.len() < 2 => return false,
-                _ => {}
+                None => return false,
             }
         }
     }
@@ -125,8 +137,25 @@ pub fn c06_check(id: &str, f: &Forest, dom: &WeakDom, roots: &[Ref], dx: &WeakDo
             out.push(format!("{id} C06 tree instance #{} differs: XML {}/{:?}, binary {}/{:?}", i + 1, ix.class, ix.name, ib.class, ib.name));
             return;
         }
+        let explicit_canon: BTreeSet<String> = n.props.iter().map(|(k, _)| find_canonical_property_descriptor(&n.class, k, db()).unwrap().name.to_string()).collect();
+        // the canonical name a reader gives back for what was written under the property's serialized name (differs from the
+        // property's own canonical name where two canonical properties share one serialized name: C01 `canonical-name-changes`)
+        let readback = |cn: &str| -> String {
+            find_serialized_property_descriptor(&n.class, cn, db())
+                .and_then(|s| find_canonical_property_descriptor(&n.class, &s.name, db()))
+                .map(|c| c.name.to_string())
+                .unwrap_or_else(|| cn.to_string())
+        };
+        let explicit_rb: Vec<String> = explicit_canon.iter().map(|c| readback(c)).collect();
         for (k, v) in &n.props {
-            let cn = find_canonical_property_descriptor(&n.class, k, db()).unwrap().name.to_string();
+            let cn0 = find_canonical_property_descriptor(&n.class, k, db()).unwrap().name.to_string();
+            let cn = readback(&cn0);
+            if explicit_rb.iter().filter(|x| **x == cn).count() > 1 {
+                // two explicitly set properties are read back under one name: which value survives is C01's recorded finding;
+                // C06 compares the survivor once, below, through the name-set rule
+                *stats.entry("c06_skipped_shared_serialized_name".into()).or_insert(0) += 1;
+                continue;
+            }
             let (px, pb) = (ix.properties.get(&cn.as_str().into()), ib.properties.get(&cn.as_str().into()));
             match (px, pb) {
                 (Some(a), Some(b)) => {
@@ -137,7 +166,31 @@ pub fn c06_check(id: &str, f: &Forest, dom: &WeakDom, roots: &[Ref], dx: &WeakDo
                 }
                 (None, Some(_)) => out.push(format!("{id} C06 missing-xml {}.{cn} ({:?}) is present after the binary round trip only", n.class, v.ty())),
                 (Some(_), None) => out.push(format!("{id} C06 missing-bin {}.{cn} ({:?}) is present after the XML round trip only", n.class, v.ty())),
-                (None, None) => out.push(format!("{id} C06 missing-both {}.{cn} ({:?}) was set explicitly and is lost by both formats", n.class, v.ty())),
+                (None, None) => {
+                    // both readers may return the property under another canonical name (two canonical properties sharing one
+                    // serialized name: C01's recorded `canonical-name-changes`); C06 asks that they agree with each other
+                    out.push(format!("{id} C06 missing-both {}.{cn} ({:?}) was set explicitly and is lost by both formats", n.class, v.ty()))
+                }
+            }
+        }
+        // survivors of shared serialized names: both decoders must hold the same value
+        for cn in explicit_rb.iter().collect::<BTreeSet<_>>() {
+            if explicit_rb.iter().filter(|x| *x == cn).count() > 1 {
+                match (ix.properties.get(&cn.as_str().into()), ib.properties.get(&cn.as_str().into())) {
+                    (Some(a), Some(b)) => {
+                        if show(a, &lx) != show(b, &lb) {
+                            out.push(format!("{id} C06 value-shared-name {}.{cn}: XML decodes to {}, binary to {}", n.class, show(a, &lx), show(b, &lb)));
+                        }
+                    }
+                    (None, None) => {}
+                    (a, _) => out.push(format!("{id} C06 missing-{} {}.{cn} is present after one round trip only", if a.is_some() { "bin" } else { "xml" }, n.class)),
+                }
+            }
+        }
+        // a property the XML decoder returns and the binary decoder does not (the binary format alone may ADD defaults, never XML)
+        for (kx, vx) in ix.properties.iter() {
+            if !explicit_canon.contains(kx.as_str()) && !explicit_rb.iter().any(|x| x == kx.as_str()) && !ib.properties.contains_key(kx) {
+                out.push(format!("{id} C06 missing-bin {}.{} ({:?}) is present after the XML round trip only (not set under that name in the source)", n.class, kx, vx.ty()));
             }
         }
     }
